@@ -1,16 +1,17 @@
 /-
   C04 — NGAP decode inverts encode, and re-encode reproduces the bytes.
-  Model: Stgutg.Model.AperEnc / AperDec. Helper lemmas: Stgutg/Proofs/AperRT.lean.
+  Model: Stgutg.Model.AperEnc / AperDec. Helper lemmas: Stgutg/Proofs/AperRT.lean (primitives),
+  Stgutg/Proofs/AperRTComp*.lean (composite types: SEQUENCE, CHOICE, SEQUENCE OF, pointers, open types).
 
   `RT bits pos m a` (Proofs.AperRT): on ANY octet-complete input `bits ++ tail` read from bit position `pos`,
   the decoder computation `m` returns `a` and leaves exactly `tail` — so the statements below compose through
   SEQUENCE components, OPTIONAL bitmaps, SEQUENCE OF and open types.
 -/
-import Stgutg.Proofs.AperRT
+import Stgutg.Proofs.AperRTComp
 import Stgutg.Gen.NgapSchema
 
 namespace Stgutg.Props.C04
-open Stgutg Stgutg.Aper Stgutg.Proofs.AperRT
+open Stgutg Stgutg.Aper Stgutg.Proofs.AperRT Stgutg.Proofs.AperRTComp
 
 /-- constrained whole numbers (X.691 11.5) of every range up to 64K: bit-field, one octet, two octets -/
 theorem constrained_whole_number (pos : Nat) (range : Int) (v : Nat) (bits : Bits)
@@ -68,5 +69,150 @@ theorem bit_string_roundtrip (pos : Nat) (bytes : Bytes) (len : Nat) (params : P
 example : (match appendInteger 3 (2 ^ 40 - 1) false (some 0) (some (2 ^ 40 - 1)) with
     | .ok b => b.length == 3 + 2 + 40 | .error _ => false) = true := by
   decide +kernel
+
+
+/-! ## The composite theorem
+
+  `rtOK env` (decidable, `Proofs/AperRTCompDefs.lean`) is what the proof needs of the SCHEMA:
+  * a component tagged `optional` is a pointer (an absent one decodes to the nil pointer); fewer than 64 OPTIONAL
+    components per SEQUENCE (the bitmap is read into a uint64);
+  * CHOICE alternatives are pointers, none is tagged `optional`, and `findAlt` finds every alternative that carries a
+    `referenceFieldValue` (the values of an open-type struct are pairwise distinct — first match wins);
+  * every component (SEQUENCE field, SEQUENCE OF element) has parameters that fit its type (`paramsOKx`: INTEGER
+    bounds both present, 0 ≤ lb, ub < 2^63, ranges above 64K start at 0; ENUMERATED roots start at 0; string sizes
+    non-negative, a fixed size ≥ 1, no `valueExt` on strings, no `sizeExt` on struct-typed fields (F23), neither on BOOLEAN; SEQUENCE OF:
+    non-negative lower bound, `sizeExt` only with an upper bound below 64K) and NEVER ENCODES TO ZERO BITS (`neF`):
+    `parseField` refuses an exhausted reader ("sequence truncated") even when the component needs no bits, so a
+    zero-width component that ends a PDU (or an open-type container) on an octet boundary cannot be decoded.
+  Topological order of the struct ids is NOT needed: encoder and decoder recurse on the same fuel, and the encoder's
+  success is a hypothesis.
+
+  `conf env fuel ty params v` (decidable) is what the proof needs of the VALUE beyond "the encoder accepts it":
+  * INTEGER within lb..ub, or — for an extensible INTEGER — above ub and below 2^63 (an int64; written as extension
+    bit 1 + the unconstrained form, `RT_int_ext`);
+  * OCTET STRING / PrintableString shorter than 16384 octets, BIT STRING shorter than 16384 bits (unfragmented — as the
+    property states) and canonical (⌈n/8⌉ octets, unused bits zero — what the decoder returns since F17);
+  * a CHOICE value is `Present = p`, alternative `p` set, every other alternative a nil pointer (what the decoder leaves), and the
+    selected alternative never encodes to zero bits. FINDING: the 27 `choice-Extensions` alternatives of NGAP's CHOICE
+    types are generated as EMPTY Go structs (`ProtocolIESingleContainer…ExtIEs struct{}`, ids `exIds Gen.Ngap.schema`);
+    selecting one encodes to the index only, and the decoder model answers "sequence truncated" whenever that index
+    ends its container exactly on an octet boundary (model-level observation; no Go input was constructed). No real
+    NGAP value uses them (the information
+    object sets are empty in TS 38.413), so nothing on the emulator's path is excluded;
+  * the encoding of an open-type value is shorter than 16384 octets (one length determinant; the property's bound).
+  Measured (one-off, 2 725 `aperrt` values of the quick tier, seed 1): every value the encoder accepts (2 683) satisfies `conf`.
+  FINDING (schema): `AssociatedQosFlowItem.QosFlowMappingIndication` is `*aper.Enumerated` tagged only `optional`
+  (no bounds): the encoder refuses every present value, so the round trip holds vacuously for it.
+-/
+
+/-- parameters fit the type -/
+abbrev ParamsFor (env : Env) (ty : Ty) (params : Params) : Prop := paramsOK env ty params = true
+
+/-- `v` is a value of type `ty` within its constraints -/
+abbrev Conf (env : Env) (fuel : Nat) (ty : Ty) (params : Params) (v : Val) : Prop := conf env fuel ty params v = true
+
+/-- **C04, composite round trip (model level, every schema that passes `rtOK`)**: on any octet-complete input
+    `bits ++ tail` with at least one bit left, read from bit position `pos`, `parseField` returns the value
+    `makeField` was given and leaves exactly `tail`. Covers SEQUENCE (extension bit, OPTIONAL bitmap, absent
+    optionals), CHOICE, SEQUENCE OF (constrained / general count, extension bit), pointers and OPEN TYPES
+    (inner value decoded from its own buffer, alternative found through the reference value decoded earlier). -/
+theorem composite_roundtrip (env : Env) (hwf : rtOK env = true) :
+    ∀ (fuel pos : Nat) (ty : Ty) (params : Params) (v : Val) (bits : Bits),
+      ParamsFor env ty params → Conf env fuel ty params v →
+      encField env fuel pos ty params v = .ok bits → RT' bits pos (decField env fuel ty params) v :=
+  RT_field env hwf
+
+/-- a component that passes the static test `neTy` never encodes to zero bits (so it is read back on ANY
+    octet-complete input: `RT`, not only `RT'`) -/
+theorem never_empty (env : Env) (ty : Ty) (params : Params) (h : neTy env ty params = true)
+    (fuel pos : Nat) (v : Val) (bits : Bits) (henc : encField env fuel pos ty params v = .ok bits) : bits ≠ [] :=
+  neTy_sound env ty params h fuel pos v bits henc
+
+/-- `UnmarshalWithParams (MarshalWithParams v) = v` for every schema that passes `rtOK` -/
+theorem roundtrip_marshal (env : Env) (hwf : rtOK env = true) (fuel : Nat) (ty : Ty) (params : Params) (v : Val)
+    (bs : Bytes) (hp : ParamsFor env ty params) (hc : Conf env fuel ty params v)
+    (h : marshal env fuel ty params v = .ok bs) : unmarshal env fuel ty params bs = .ok v :=
+  marshal_unmarshal env hwf fuel ty params v bs hp hc h
+
+set_option maxRecDepth 1000000 in
+/-- Table fact, re-decided on every run over the regenerated schema (1 431 struct types) -/
+theorem ngap_schema_rtOK : rtOK Gen.Ngap.schema = true := by decide +kernel
+
+/-- fuel used by the driver (the value of `Props.C14.fuel`); the theorems below hold for every fuel -/
+def fuel : Nat := 8 * (Gen.Ngap.schema.length + 1) + 1
+
+/-- a conforming NGAP PDU -/
+abbrev ConfPdu (fuel : Nat) (v : Val) : Prop :=
+  Conf Gen.Ngap.schema fuel (.struct Gen.Ngap.pduId) Gen.Ngap.encoderParams v
+
+theorem pdu_params_ok : ParamsFor Gen.Ngap.schema (.struct Gen.Ngap.pduId) Gen.Ngap.encoderParams := by
+  show paramsOKx _ _ (.struct Gen.Ngap.pduId) Gen.Ngap.encoderParams = true
+  rfl
+
+/-- **C04 for NGAP PDUs**: `ngap.Decoder (ngap.Encoder v) = v` (model) for every conforming PDU value -/
+theorem C04_roundtrip_pdu (fuel : Nat) (v : Val) (bs : Bytes) (hc : ConfPdu fuel v)
+    (h : marshal Gen.Ngap.schema fuel (.struct Gen.Ngap.pduId) Gen.Ngap.encoderParams v = .ok bs) :
+    unmarshal Gen.Ngap.schema fuel (.struct Gen.Ngap.pduId) Gen.Ngap.decoderParams bs = .ok v :=
+  marshal_unmarshal Gen.Ngap.schema ngap_schema_rtOK fuel _ _ v bs pdu_params_ok hc h
+
+/-- re-encoding: the bytes the library produced for a conforming PDU decode to a value whose encoding is those bytes -/
+theorem C04_reencode_pdu (fuel : Nat) (v : Val) (bs : Bytes) (hc : ConfPdu fuel v)
+    (h : marshal Gen.Ngap.schema fuel (.struct Gen.Ngap.pduId) Gen.Ngap.encoderParams v = .ok bs) :
+    ∃ v', unmarshal Gen.Ngap.schema fuel (.struct Gen.Ngap.pduId) Gen.Ngap.decoderParams bs = .ok v' ∧
+      marshal Gen.Ngap.schema fuel (.struct Gen.Ngap.pduId) Gen.Ngap.encoderParams v' = .ok bs :=
+  ⟨v, C04_roundtrip_pdu fuel v bs hc h, h⟩
+
+/-- **C04 for the transfer containers** (and every other struct type of the schema marshalled on its own with
+    `aper.MarshalWithParams(v, "valueExt")`) -/
+theorem C04_roundtrip_container (fuel id : Nat) (v : Val) (bs : Bytes)
+    (hc : Conf Gen.Ngap.schema fuel (.struct id) { valueExt := true } v)
+    (h : marshal Gen.Ngap.schema fuel (.struct id) { valueExt := true } v = .ok bs) :
+    unmarshal Gen.Ngap.schema fuel (.struct id) { valueExt := true } bs = .ok v :=
+  marshal_unmarshal Gen.Ngap.schema ngap_schema_rtOK fuel _ _ v bs rfl hc h
+
+/-! ### non-vacuity: an NGSetupRequest -/
+
+/-- a CHOICE value with `n` alternatives, alternative `k` (1-based) set to `v` -/
+def choiceV (n k : Nat) (v : Val) : Val :=
+  .struct (.int k :: (List.replicate n Val.nil).set (k - 1) (.ptr v))
+
+/-- a protocol IE: id, criticality, open-type value (alternative `k` of `n`) -/
+def ieV (id : Int) (crit n k : Nat) (v : Val) : Val :=
+  .struct [.struct [.int id], .struct [.enum crit], choiceV n k v]
+
+def plmnV : Val := .struct [.octs [0x02, 0xf8, 0x39]]
+
+/-- NGSetupRequest { GlobalRANNodeID (gNB, 22-bit id), RANNodeName "free5gc", SupportedTAList (one TA, one PLMN,
+    one S-NSSAI with SD), DefaultPagingDRX } -/
+def ngSetupRequest : Val :=
+  choiceV 3 1 (.struct [.struct [.int 21], .struct [.enum 0],
+    choiceV 52 7
+      (.struct [.struct [.slice [
+        ieV 27 0 4 1 (choiceV 4 1 (.struct [plmnV, choiceV 2 1 (.bits [0x00, 0x01, 0x04] 22), .nil])),
+        ieV 82 1 4 2 (.struct [.str [0x66, 0x72, 0x65, 0x65, 0x35, 0x67, 0x63]]),
+        ieV 102 0 4 3 (.struct [.slice [.struct [.struct [.octs [0, 0, 1]],
+          .struct [.slice [.struct [plmnV,
+            .struct [.slice [.struct [.struct [.struct [.octs [1]], .ptr (.struct [.octs [1, 2, 3]]), .nil], .nil]]],
+            .nil]]],
+          .nil]]]),
+        ieV 21 1 4 4 (.struct [.enum 1])]]])])
+
+set_option maxRecDepth 1000000 in
+/-- the NGSetupRequest satisfies `Conf` … -/
+theorem ngSetupRequest_conf : ConfPdu fuel ngSetupRequest := by decide +kernel
+
+set_option maxRecDepth 1000000 in
+/-- … and is accepted by the encoder (57 octets, 4 protocol IEs in open types, two levels of containers) -/
+theorem ngSetupRequest_encodes :
+    (marshal Gen.Ngap.schema fuel (.struct Gen.Ngap.pduId) Gen.Ngap.encoderParams ngSetupRequest).toOption.map toHex =
+      some "00150035000004001b00080002f83900000104005240090300667265653567630066001000000000010002f839000010080102030015400120" := by
+  decide +kernel
+
+/-- so the hypotheses of `C04_roundtrip_pdu` are satisfiable by a real message -/
+example : ∃ bs, marshal Gen.Ngap.schema fuel (.struct Gen.Ngap.pduId) Gen.Ngap.encoderParams ngSetupRequest = .ok bs ∧
+    unmarshal Gen.Ngap.schema fuel (.struct Gen.Ngap.pduId) Gen.Ngap.decoderParams bs = .ok ngSetupRequest := by
+  cases h : marshal Gen.Ngap.schema fuel (.struct Gen.Ngap.pduId) Gen.Ngap.encoderParams ngSetupRequest with
+  | error e => have := ngSetupRequest_encodes; rw [h] at this; cases this
+  | ok bs => exact ⟨bs, rfl, C04_roundtrip_pdu fuel ngSetupRequest bs ngSetupRequest_conf h⟩
 
 end Stgutg.Props.C04
